@@ -28,3 +28,58 @@ Theorem C04_state_wellformedness_preserved :
     FilesND a -> Forall FilesND (run_states pre p a phi) /\ FilesND (snd (fst (run pre p a phi))).
 Proof. exact any_run_FilesND. Qed.
 Print Assumptions C04_state_wellformedness_preserved.
+
+(* ---- content half: what the new band records is TRUE, whatever fails ---- *)
+From Coq Require Import List NArith.
+From CV Require Import Stitch Codec Truth TruthP.
+Local Open Scope N_scope.
+
+(* From any archive with referential integrity, for ANY fault list (I/O errors on any
+   operations, a kill anywhere, a kill leaving a zero-length file), at EVERY state the backup
+   passes through and at the final one: every good index hunk is either one the archive
+   already had, unchanged, or lies in the band this run creates, and every file entry in it
+   has the path and metadata of a source file, reads back completely, and reads back to
+   exactly the bytes read from that source file -- or carries the addresses of the entry of
+   the same path, kind, mtime and size read from an EARLIER band. *)
+Theorem C04_new_entries_truthful :
+  forall (pre : bytes -> N) (c : cfg) (src : list sitem) (a0 : Store.arch) (phi : list fault),
+    AInv a0 -> SrcOK src -> cfg_ok c ->
+    Forall (HunksTruthful c src a0 (new_band a0)) (run_states pre (backup_prog pre c src) a0 phi)
+    /\ HunksTruthful c src a0 (new_band a0) (snd (fst (run pre (backup_prog pre c src) a0 phi)))
+    /\ (forall r b, snd (run pre (backup_prog pre c src) a0 phi) = Store.Done r ->
+                    b_band r = Some b -> b = new_band a0).
+Proof. exact backup_new_entries_truthful. Qed.
+Print Assumptions C04_new_entries_truthful.
+
+(* No false success: if, under ANY sequence of I/O failures, the backup returns reporting
+   success with zero errors, then the band it names is closed by a tail that counts exactly
+   its hunks 0..n-1 and the recorded paths are exactly (as a multiset) the paths of the
+   source's files, directories and symlinks. *)
+Theorem C04_success_means_complete :
+  forall (pre : bytes -> N) (c : cfg) (src : list sitem) (a0 : Store.arch) (phi : list fault) (r : bres),
+    (forall h, get a0 (PHunk (new_band a0) h) = None) ->
+    snd (run pre (backup_prog pre c src) a0 phi) = Store.Done r ->
+    b_ok r = true -> b_errors r = 0 ->
+    Complete src (snd (fst (run pre (backup_prog pre c src) a0 phi))) (new_band a0)
+    /\ b_band r = Some (new_band a0).
+Proof. exact backup_success_complete. Qed.
+Print Assumptions C04_success_means_complete.
+
+(* ... equivalently: a source item that did not get recorded is always reported. *)
+Theorem C04_skip_is_reported :
+  forall (pre : bytes -> N) (c : cfg) (src : list sitem) (a0 : Store.arch) (phi : list fault) (r : bres) (it : sitem),
+    (forall h, get a0 (PHunk (new_band a0) h) = None) ->
+    snd (run pre (backup_prog pre c src) a0 phi) = Store.Done r ->
+    In it src -> known_kind (s_kind (si_e it)) = true ->
+    (forall e, Recorded (snd (fst (run pre (backup_prog pre c src) a0 phi))) (new_band a0) e ->
+               e_apath e <> s_apath (si_e it)) ->
+    b_ok r = false \/ 0 < b_errors r.
+Proof. exact skip_is_reported. Qed.
+Print Assumptions C04_skip_is_reported.
+
+(* Storage errors never crash the backup. *)
+Theorem C04_backup_never_panics :
+  forall (pre : bytes -> N) (c : cfg) (src : list sitem) (a : Store.arch) (phi : list fault),
+    snd (run pre (backup_prog pre c src) a phi) <> Panicked.
+Proof. exact TruthP.never_panics. Qed.
+Print Assumptions C04_backup_never_panics.
